@@ -209,17 +209,18 @@ CLAIMED = {
         "technique": "Coq proof (case analysis / list induction over a glue model with abstract library results) + differential correspondence on the real entry points",
     },
     "C05": {
-        "text": ("15 theorems (Coq, no axioms) over a model of merger.py (_merge_dicts with its insertion buffer, "
+        "text": ("26 theorems (Coq, no axioms) over a model of merger.py (_merge_dicts with its insertion buffer, "
                  "_merge_simple_lists, _merge_arrays_of_hashes, _merge_lists dispatch, _merge_sets, the _insert_* "
                  "root dispatch, merge_with) and MergerConfig (rule > CLI option > INI default > built-in default, "
                  "rules matched by node identity): precedence for all four option kinds, a rule governs only the "
                  "node it was resolved to, left-hand content not named by the right keeps value and relative "
                  "order (loop invariant over the insertion buffer), array all/left/right, AoH all/left/right, set "
                  "left/right/unique, structurally impossible merges raise MergeException at the target and nested "
-                 "for every configuration, scalar override (_partial/_refuted around listed finding F-C05-1).  "
-                 "Array/AoH UNIQUE, AoH DEEP, the key-set union and no-crash over all inputs are covered by the "
-                 "model, the correspondence run and an independent reference judge, not yet by theorems "
-                 "(docs/C05.md).  The regenerated enum names are proof obligations (GenTables).  Tie: all pairs of "
+                 "for every configuration, C05_no_crash (every pair, every configuration: a document, MergeException or "
+                 "the NameError of an exhibited bad policy text - no fuel), C05_hash_union (left keys in order, "
+                 "right-only keys in right order, per-key value by policy; key set = union), arrays/AoH UNIQUE "
+                 "and AoH DEEP by identity key as declarative statements, scalar override over the whole loop "
+                 "(_partial/_refuted around listed finding F-C05-1).  The regenerated enum names are proof obligations (GenTables).  Tie: all pairs of "
                  "small documents over a colliding alphabet x the 3x4x5x3 policy grid on a core, sampled beyond, "
                  "with per-path rules and identity keys."),
         "design_ref": "DESIGN.md section 4 (C05), docs/C05.md",
@@ -227,15 +228,17 @@ CLAIMED = {
         "technique": "Coq proof (loop invariants over the merge model; case analysis over the policy grid) + differential correspondence + reference judge",
     },
     "C10": {
-        "text": ("9 theorems (Coq, no axioms) over a model of anchors.py (scan_for_anchors, rename_anchor, "
+        "text": ("15 theorems (Coq, no axioms) over a model of anchors.py (scan_for_anchors, rename_anchor, "
                  "replace_anchor, the unique-name loop with explicit fuel |known|+1 PROVED sufficient) and "
                  "Merger._resolve_anchor_conflicts: stop refuses; equal values are no conflict and leave the "
                  "right document untouched; left / right make every alias of every common name read the chosen "
                  "value (loop invariant over all common names; side conditions: anchors on scalars, no anchored "
                  "hash keys); the rename loop returns a name outside the known set; replace_anchor is a "
-                 "substitution.  C10_rename as a universal statement, C10_unique_names and the lift through the "
-                 "C05 merge to the final document are covered by Examples, the tie and the judge only "
-                 "(docs/C10.md).  Tie: pairs of documents defining/aliasing scalar anchors from a 3-name pool x "
+                 "substitution; C10_rename (both values kept; exactly the right-hand definition and every alias carry "
+                 "the new name, which neither input used) and C10_unique_names (accepted -> one node per anchor "
+                 "name, for all four policies) under computable well-formedness conditions; the lift through the "
+                 "recursive core of the C05 merge (C10_lift_reads / C10_lift_unique; the root dispatch step is "
+                 "still tie-only, docs/C10.md).  Tie: pairs of documents defining/aliasing scalar anchors from a 3-name pool x "
                  "4 anchor policies x merge policies, compared after conflict resolution and after merge_with; "
                  "the judge dumps the real result with ruamel, scans for duplicate/undefined anchors and reloads "
                  "it with yamlpath's loader."),
